@@ -19,4 +19,6 @@ open GlueVerif.C19
 #print axioms layout_irrelevant
 #print axioms relayout_values
 #print axioms export_import_any_layout
+#print axioms restate_values
+#print axioms component_state_irrelevant
 #print axioms export_import_chain
